@@ -924,6 +924,7 @@ class World:
         found = []
         reported = set()
         self.latent = 0
+        self.latent_working = False
         vianame = {}  # (owner label, via id) -> name of the accessible
         for label, okind, acc, propvals in self.owners():
             mine = {}
@@ -946,6 +947,8 @@ class World:
                 if okind == 'class' and ookind == 'class' and via == ovia and via:
                     continue      # the same inherited Accessible object (by design)
                 if okind == 'class' and ookind == 'class' and any(obj is c for c in self.constants.values()):
+                    if '.propertyValues' in path and path.startswith('Parameter') or '.propertyValues' in opath and opath.startswith('Parameter'):
+                        self.latent_working = True   # a class-level parameter WORKS on the programmer's object (no copy)
                     # the datatype object the programmer passed to the declarations of both classes: each class remembers it
                     # in ownProperties (and works on a copy); a hazard only if somebody changes the object - that is observed
                     self.latent += 1
@@ -1287,6 +1290,8 @@ def evaluate(family, steps, part, ref, parent=None):
         aliases = world.alias_findings()
         if world.latent:
             part.outcomes['alias:latent(datatype of the same accessible shared by class and subclass)'] += 1
+        if getattr(world, 'latent_working', False):
+            part.outcomes['alias:latent(a class-level parameter works on the datatype object passed by the programmer)'] += 1
         for regname in set(world.registry_changes):
             part.outcomes[f'latent:global registry {regname} changed by a class definition'] += 1
         impure = [world.observe_inst_impure(k) for k in range(len(world.insts))]
